@@ -367,38 +367,46 @@ returning `out` tells the caller that the body is over: `read()` returning at al
 sequence of `read()`, `read(0)`, `read(n)` (= `readinto(n)`), `read1()`, `read1(n)` calls on a response
 whose body is short of its Content-Length or whose chunked framing is incomplete / has an unparseable
 size line — every cut position, every segmentation, ANY content decoder, decoding on or off —:
-either a call raises (never the model's `fuel` outcome: the loops terminate), or the sequence runs
-through and **no call has signalled an end of body** — every `read(n)` / `read1(n)` returned a
-non-empty piece —, the body is still broken, and the next `read()` raises ProtocolError.
-`enforce_content_length` is on (the default).  The exception is `_raw_read`'s ProtocolError
-(`IncompleteRead` / `InvalidChunkLength`) unless the decoder raises first (DecodeError …). -/
+either a call raises — never the model's `fuel` outcome (the loops terminate), and if it is
+ProtocolError (`_raw_read`'s `IncompleteRead` / `InvalidChunkLength`; anything else comes from the
+decoder) **the connection has been closed and handed back closed** —, or the sequence runs through and
+**no call has signalled an end of body** — every `read(n)` / `read1(n)` returned a non-empty piece —,
+the body is still broken, the connection still held, and the next `read()` raises ProtocolError and
+closes it.  `enforce_content_length` is on (the default). -/
 theorem C13_truncated_raises {δ : Type} (D : Dec δ) (cfg : Cfg δ) (henf : cfg.enforce = true)
     (dco : Option Bool) (r : R H δ)
     (hbroken : LShort r.fp r.lengthRemaining ∨ CBroken r.fp r.lengthRemaining)
-    (hfuel : r.fp.avail < cfg.fuel) (calls : List RCall) :
-    (∃ e r', callSeq hSrc D cfg dco calls r = (.error e, r') ∧ e ≠ .fuel) ∨
+    (hfuel : r.fp.avail < cfg.fuel) (hconn : r.conn = true) (calls : List RCall) :
+    (∃ e r', callSeq hSrc D cfg dco calls r = (.error e, r') ∧ e ≠ .fuel ∧
+      (e = .protocolError → r'.connClosed = true ∧ r'.released = true ∧ r'.conn = false)) ∨
     (∃ outs r', callSeq hSrc D cfg dco calls r = (.ok outs, r') ∧ outs.length = calls.length ∧
       (∀ i (hi : i < calls.length) (ho : i < outs.length), ¬ EndSignal calls[i] outs[i]) ∧
-      (LShort r'.fp r'.lengthRemaining ∨ CBroken r'.fp r'.lengthRemaining) ∧
-      ∃ r'', read hSrc D cfg r' none dco = (.error .protocolError, r'')) := by
+      (LShort r'.fp r'.lengthRemaining ∨ CBroken r'.fp r'.lengthRemaining) ∧ r'.conn = true ∧
+      ∃ r'', read hSrc D cfg r' none dco = (.error .protocolError, r'') ∧
+        r''.connClosed = true ∧ r''.released = true ∧ r''.conn = false) := by
   rcases hbroken with hb | hb
   · have hB := hSrc_rawBroken_short (δ := δ) cfg henf
-    rcases callSeq_broken hSrc D cfg hB dco calls r hb hfuel with h1 | ⟨outs, r', e1, e2, e3, e4, _⟩
-    · left; exact h1
+    rcases callSeq_broken hSrc D cfg hB dco calls r hb hfuel hconn with
+      ⟨e, r', e1, e2⟩ | ⟨outs, r', e1, e2, e3, e4, _, e6⟩
+    · left; exact ⟨e, r', e1, e2⟩
     · right
-      exact ⟨outs, r', e1, e2, e3, Or.inl e4, read_none_broken hSrc D cfg hB dco false r' e4⟩
+      obtain ⟨r'', f1, f2⟩ := read_none_broken hSrc D cfg hB dco false r' e4
+      exact ⟨outs, r', e1, e2, e3, Or.inl e4, e6, r'', f1, f2 e6⟩
   · have hB := hSrc_rawBroken_chunked (δ := δ) cfg
-    rcases callSeq_broken hSrc D cfg hB dco calls r hb hfuel with h1 | ⟨outs, r', e1, e2, e3, e4, _⟩
-    · left; exact h1
+    rcases callSeq_broken hSrc D cfg hB dco calls r hb hfuel hconn with
+      ⟨e, r', e1, e2⟩ | ⟨outs, r', e1, e2, e3, e4, _, e6⟩
+    · left; exact ⟨e, r', e1, e2⟩
     · right
-      exact ⟨outs, r', e1, e2, e3, Or.inr e4, read_none_broken hSrc D cfg hB dco false r' e4⟩
+      obtain ⟨r'', f1, f2⟩ := read_none_broken hSrc D cfg hB dco false r' e4
+      exact ⟨outs, r', e1, e2, e3, Or.inr e4, e6, r'', f1, f2 e6⟩
 
 /-- non-vacuity: `Content-Length: 5` with "ab"; a chunk of 5 cut after 2 bytes (segmentation 3) -/
 example : LShort (respOf wireShortCL 0 (some (lit "5")) false (some 5)).fp
     (respOf wireShortCL 0 (some (lit "5")) false (some 5)).lengthRemaining := lShort_shortCL
 example : CBroken (respChunked wireChunkedCut 3).fp (respChunked wireChunkedCut 3).lengthRemaining :=
   cBroken_chunkedCut
-example : cfgNone.enforce = true ∧ (respOf wireShortCL 0 (some (lit "5")) false (some 5)).fp.avail < cfgNone.fuel := by
+example : cfgNone.enforce = true ∧ (respOf wireShortCL 0 (some (lit "5")) false (some 5)).fp.avail < cfgNone.fuel ∧
+    (respOf wireShortCL 0 (some (lit "5")) false (some 5)).conn = true := by
   decide +kernel
 
 /-- … and what the model computes on them: `read(1)`, `read1()` return pieces, then `read(7)` raises -/
@@ -414,20 +422,26 @@ example :
 /-- **the generators on a cut-off body end in an exception, never in StopIteration**:
 (a) non-chunked body short of its Content-Length: `stream(amt)` (`amt ≠ 0`) and iteration (loops of
 `read(amt)`);  (b) broken chunked body, urllib3's own chunk parser: `read_chunked(amt)`, `stream(amt)`
-and iteration — `_update_chunk_length` / `_handle_chunk` run into the unparseable line or the EOF.
+and iteration — `_update_chunk_length` / `_handle_chunk` run into the unparseable line or the EOF —
+and, the whole chunk loop running inside `_error_catcher`, the connection the response held is
+closed and handed back closed whatever the exception.
 Any decoder, decoding on or off, any amount, any segmentation.  (The outcome may be the model's
 `fuel` only where an arbitrary decoder inflates without bound; it is an error outcome too.) -/
 theorem C13_truncated_generators_raise {δ : Type} (D : Dec δ) (cfg : Cfg δ) (r : R H δ) :
     (cfg.enforce = true → cfg.chunked = false → LShort r.fp r.lengthRemaining → r.fp.avail < cfg.fuel →
-      ∀ amt dco, amt ≠ some 0 →
+      r.conn = true → ∀ amt dco, amt ≠ some 0 →
         (∃ e, (stream hSrc D cfg r amt dco).1.2 = some e) ∧ (∃ e, (iter hSrc D cfg r).1.2 = some e)) ∧
     (cfg.chunked = true → cfg.head = false →
       ∀ f, r.fp.fp = some f → BrokenU r.chunkLeft f.content →
-      ∀ amt, (∀ dc, ∃ e, (readChunked hSrc D cfg r amt dc).1.2 = some e) ∧
-        (∀ dco, ∃ e, (stream hSrc D cfg r amt dco).1.2 = some e) ∧
+      ∀ amt, (∀ dc, (∃ e, (readChunked hSrc D cfg r amt dc).1.2 = some e) ∧
+          (r.conn = true → (readChunked hSrc D cfg r amt dc).2.connClosed = true ∧
+            (readChunked hSrc D cfg r amt dc).2.released = true ∧ (readChunked hSrc D cfg r amt dc).2.conn = false)) ∧
+        (∀ dco, (∃ e, (stream hSrc D cfg r amt dco).1.2 = some e) ∧
+          (r.conn = true → (stream hSrc D cfg r amt dco).2.connClosed = true ∧
+            (stream hSrc D cfg r amt dco).2.released = true ∧ (stream hSrc D cfg r amt dco).2.conn = false)) ∧
         (∃ e, (iter hSrc D cfg r).1.2 = some e)) := by
-  refine ⟨fun henf hnc hb hf amt dco hamt => ?_, fun hch hhd f hf hb amt => ?_⟩
-  · exact stream_broken hSrc D cfg (hSrc_rawBroken_short cfg henf) hnc amt hamt dco r hb hf
+  refine ⟨fun henf hnc hb hf hconn amt dco hamt => ?_, fun hch hhd f hf hb amt => ?_⟩
+  · exact stream_broken hSrc D cfg (hSrc_rawBroken_short cfg henf) hnc amt hamt dco r hb hf hconn
   · obtain ⟨h1, h2⟩ := readChunked_broken cfg D hch hhd amt r f hf hb
     exact ⟨h1, h2, iter_broken_chunked cfg D hch hhd r f hf hb⟩
 
